@@ -168,3 +168,35 @@ package keeper
 //@   invariant traceN() >= old(traceN())
 //@   step[C04.iafo.persist] (traceN() == old(traceN()) + 1 && (isUpdate ==> get(ctx, "assets", cat(g("x/assets/types.KeyPrefixOperatorAssetInfos"), res_Key_0)) == res_MustMarshal_0)) ||
 //@        (assetsFilter != nil && traceN() == old(traceN()) && state(ctx) == old(state(ctx)))
+
+// ---------------------------------------------------------------------------------------------
+// C18 (export followed by import reproduces the ledger): every staker row and every operator pool row of the genesis
+// document is imported with ALL of its amounts - deposit, withdrawable and pending-undelegation for a staker; total,
+// pending-undelegation, total share and operator share for a pool - under the staker / operator and asset it was
+// exported for.
+//@ func (Keeper).InitGenesis
+//@   requires data != nil
+//@   flag noframe
+//@   flag pure=AccAddressFromBech32,Wrap
+//@   flag havoc=SetParams,SetClientChainInfo,SetStakingAssetInfo,UpdateStakerAssetState,UpdateOperatorAssetState
+//@   before[C18.aig.staker] UpdateStakerAssetState requires arg_stakerID == deposit.StakerID && arg_assetID == depositsByStaker.AssetID &&
+//@        arg_changeAmount.TotalDepositAmount == depositsByStaker.Info.TotalDepositAmount &&
+//@        arg_changeAmount.WithdrawableAmount == depositsByStaker.Info.WithdrawableAmount &&
+//@        arg_changeAmount.PendingUndelegationAmount == depositsByStaker.Info.PendingUndelegationAmount
+//@   before[C18.aig.pool] UpdateOperatorAssetState requires arg_assetID == assetInfo.AssetID &&
+//@        arg_changeAmount.TotalAmount == assetInfo.Info.TotalAmount &&
+//@        arg_changeAmount.PendingUndelegationAmount == assetInfo.Info.PendingUndelegationAmount &&
+//@        arg_changeAmount.TotalShare == assetInfo.Info.TotalShare &&
+//@        arg_changeAmount.OperatorShare == assetInfo.Info.OperatorShare
+//@ loop #1
+//@   invariant true
+//@ loop #2
+//@   invariant true
+//@ loop #3
+//@   invariant true
+//@ loop #4
+//@   invariant true
+//@ loop #5
+//@   invariant true
+//@ loop #6
+//@   invariant true
